@@ -639,7 +639,8 @@ func mlucTag(recs []mlucRec, strOrder []int, share map[int]int, recordSize int, 
 		strs.Write(make([]byte, gap))
 	}
 	for i, j := range share {
-		offs[i], lens[i] = offs[j], lens[j]
+		// record i points at the start of record j's string; its own text is that string or a prefix of it
+		offs[i], lens[i] = offs[j], len(utf16be(recs[i].text))
 	}
 	var b bytes.Buffer
 	b.WriteString("mluc")
@@ -794,6 +795,16 @@ func randIccDesc(r *rng, maxTags int) (*iccDesc, [][]byte) {
 				}
 				for i, j := range share {
 					recs[i].text = recs[j].text
+					if r.intn(2) == 0 && len(recs[j].text) > 1 {
+						// the same start, a shorter length: a prefix (cut between code points)
+						k := 1 + r.intn(len(recs[j].text)-1)
+						if u := recs[j].text[k-1]; u >= 0xd800 && u < 0xdc00 {
+							k--
+						}
+						if k > 0 {
+							recs[i].text = recs[j].text[:k]
+						}
+					}
 				}
 				recSize := 12
 				if r.intn(5) == 0 {
